@@ -12,14 +12,14 @@
 #include "nmtools/array/functional/flip.hpp"
 #include "nmtools/array/functional/ufuncs/add.hpp"
 #include "nmtools/array/functional/ufuncs/multiply.hpp"
-#include "nmtools/array/functional/ufuncs/square.hpp"
+#include "nmtools/array/functional/ufuncs/invert.hpp"
 #include "nmtools/array/view/transpose.hpp"
 #include "nmtools/array/view/reshape.hpp"
 #include "nmtools/array/view/flatten.hpp"
 #include "nmtools/array/view/flip.hpp"
 #include "nmtools/array/view/ufuncs/add.hpp"
 #include "nmtools/array/view/ufuncs/multiply.hpp"
-#include "nmtools/array/view/ufuncs/square.hpp"
+#include "nmtools/array/view/ufuncs/invert.hpp"
 namespace view = nm::view; namespace fn = nm::functional;
 using a2_t = hyb_t<unsigned,16,2>;
 
@@ -49,8 +49,8 @@ KERNEL int K(k_th_flatten)(const size_t* shape, const unsigned* data, unsigned* 
   a2_t a; if (!mk2(a,shape,data)) return -1; STEP1(1, view::flatten(a)) }
 KERNEL int K(k_th_flip)(const size_t* shape, const unsigned* data, int axis, unsigned* out, size_t* oshape, GEOM){
   a2_t a; if (!mk2(a,shape,data)) return -1; STEP1(2, view::flip(a, axis)) }
-KERNEL int K(k_th_square)(const size_t* shape, const unsigned* data, unsigned* out, size_t* oshape, GEOM){
-  a2_t a; if (!mk2(a,shape,data)) return -1; STEP1(2, view::square(a)) }
+KERNEL int K(k_th_invert)(const size_t* shape, const unsigned* data, unsigned* out, size_t* oshape, GEOM){
+  a2_t a; if (!mk2(a,shape,data)) return -1; STEP1(2, view::invert(a)) }
 // write side alone: output device_array + assign_result of a plain host array
 KERNEL int K(k_th_write_side)(const size_t* shape, const unsigned* data, unsigned* out, GEOM){
   a2_t a; if (!mk2(a,shape,data)) return -1;
